@@ -135,16 +135,27 @@ theorem Version_fmt (v : Version) : v.rs_fmt = v.render := by
 
 /-! ### tuple conversions (all ten integer types) -/
 
-theorem from_u8x3 (a b c : Nat) : Version.rs_from_u8x3 (a, b, c) = Version.mk3 a b c := rfl
-theorem from_u16x3 (a b c : Nat) : Version.rs_from_u16x3 (a, b, c) = Version.mk3 a b c := rfl
-theorem from_u32x3 (a b c : Nat) : Version.rs_from_u32x3 (a, b, c) = Version.mk3 a b c := rfl
-theorem from_u64x3 (a b c : Nat) : Version.rs_from_u64x3 (a, b, c) = Version.mk3 a b c := rfl
-theorem from_usizex3 (a b c : Nat) : Version.rs_from_usizex3 (a, b, c) = Version.mk3 a b c := rfl
-theorem from_u8x4 (a b c d : Nat) : Version.rs_from_u8x4 (a, b, c, d) = Version.mk4 a b c d := rfl
-theorem from_u16x4 (a b c d : Nat) : Version.rs_from_u16x4 (a, b, c, d) = Version.mk4 a b c d := rfl
-theorem from_u32x4 (a b c d : Nat) : Version.rs_from_u32x4 (a, b, c, d) = Version.mk4 a b c d := rfl
-theorem from_u64x4 (a b c d : Nat) : Version.rs_from_u64x4 (a, b, c, d) = Version.mk4 a b c d := rfl
-theorem from_usizex4 (a b c d : Nat) : Version.rs_from_usizex4 (a, b, c, d) = Version.mk4 a b c d := rfl
+/-- a conversion is the struct literal of the model, or is written through another conversion
+(`..Version::from((major, minor, patch))`): unfold the conversions it goes through -/
+macro "from_tac" : tactic => `(tactic| first
+  | rfl
+  | (simp [Rust.into, RInto.into, Id.run, Version.rs_from_u64x3, Version.rs_from_i64x3, Version.rs_from_u64x4,
+      Version.rs_from_i64x4, Version.rs_from_u8x3, Version.rs_from_u16x3, Version.rs_from_u32x3, Version.rs_from_usizex3,
+      Version.rs_from_u8x4, Version.rs_from_u16x4, Version.rs_from_u32x4, Version.rs_from_usizex4,
+      Version.rs_from_i8x3, Version.rs_from_i16x3, Version.rs_from_i32x3, Version.rs_from_isizex3,
+      Version.rs_from_i8x4, Version.rs_from_i16x4, Version.rs_from_i32x4, Version.rs_from_isizex4,
+      Version.mk3, Version.mk4]))
+
+theorem from_u8x3 (a b c : Nat) : Version.rs_from_u8x3 (a, b, c) = Version.mk3 a b c := by from_tac
+theorem from_u16x3 (a b c : Nat) : Version.rs_from_u16x3 (a, b, c) = Version.mk3 a b c := by from_tac
+theorem from_u32x3 (a b c : Nat) : Version.rs_from_u32x3 (a, b, c) = Version.mk3 a b c := by from_tac
+theorem from_u64x3 (a b c : Nat) : Version.rs_from_u64x3 (a, b, c) = Version.mk3 a b c := by from_tac
+theorem from_usizex3 (a b c : Nat) : Version.rs_from_usizex3 (a, b, c) = Version.mk3 a b c := by from_tac
+theorem from_u8x4 (a b c d : Nat) : Version.rs_from_u8x4 (a, b, c, d) = Version.mk4 a b c d := by from_tac
+theorem from_u16x4 (a b c d : Nat) : Version.rs_from_u16x4 (a, b, c, d) = Version.mk4 a b c d := by from_tac
+theorem from_u32x4 (a b c d : Nat) : Version.rs_from_u32x4 (a, b, c, d) = Version.mk4 a b c d := by from_tac
+theorem from_u64x4 (a b c d : Nat) : Version.rs_from_u64x4 (a, b, c, d) = Version.mk4 a b c d := by from_tac
+theorem from_usizex4 (a b c d : Nat) : Version.rs_from_usizex4 (a, b, c, d) = Version.mk4 a b c d := by from_tac
 
 /-- `x as u64` of a non-negative signed value below 2^64 is the value -/
 theorem as_u64_nonneg (a : Nat) (h : a < 18446744073709551616) : Rust.as_u64 (a : Int) = a := by
@@ -170,15 +181,15 @@ theorem from_signed4 (f : Int × Int × Int × Int → Version)
   intro a b c d ha hb hc hd
   rw [hf]; simp [as_u64_nonneg, ha, hb, hc, hd, Version.mk4]
 
-theorem from_i8x3 : Signed3 Version.rs_from_i8x3 := from_signed3 Version.rs_from_i8x3 (fun _ => rfl)
-theorem from_i16x3 : Signed3 Version.rs_from_i16x3 := from_signed3 Version.rs_from_i16x3 (fun _ => rfl)
-theorem from_i32x3 : Signed3 Version.rs_from_i32x3 := from_signed3 Version.rs_from_i32x3 (fun _ => rfl)
-theorem from_i64x3 : Signed3 Version.rs_from_i64x3 := from_signed3 Version.rs_from_i64x3 (fun _ => rfl)
-theorem from_isizex3 : Signed3 Version.rs_from_isizex3 := from_signed3 Version.rs_from_isizex3 (fun _ => rfl)
-theorem from_i8x4 : Signed4 Version.rs_from_i8x4 := from_signed4 Version.rs_from_i8x4 (fun _ => rfl)
-theorem from_i16x4 : Signed4 Version.rs_from_i16x4 := from_signed4 Version.rs_from_i16x4 (fun _ => rfl)
-theorem from_i32x4 : Signed4 Version.rs_from_i32x4 := from_signed4 Version.rs_from_i32x4 (fun _ => rfl)
-theorem from_i64x4 : Signed4 Version.rs_from_i64x4 := from_signed4 Version.rs_from_i64x4 (fun _ => rfl)
-theorem from_isizex4 : Signed4 Version.rs_from_isizex4 := from_signed4 Version.rs_from_isizex4 (fun _ => rfl)
+theorem from_i8x3 : Signed3 Version.rs_from_i8x3 := from_signed3 Version.rs_from_i8x3 (fun _ => by from_tac)
+theorem from_i16x3 : Signed3 Version.rs_from_i16x3 := from_signed3 Version.rs_from_i16x3 (fun _ => by from_tac)
+theorem from_i32x3 : Signed3 Version.rs_from_i32x3 := from_signed3 Version.rs_from_i32x3 (fun _ => by from_tac)
+theorem from_i64x3 : Signed3 Version.rs_from_i64x3 := from_signed3 Version.rs_from_i64x3 (fun _ => by from_tac)
+theorem from_isizex3 : Signed3 Version.rs_from_isizex3 := from_signed3 Version.rs_from_isizex3 (fun _ => by from_tac)
+theorem from_i8x4 : Signed4 Version.rs_from_i8x4 := from_signed4 Version.rs_from_i8x4 (fun _ => by from_tac)
+theorem from_i16x4 : Signed4 Version.rs_from_i16x4 := from_signed4 Version.rs_from_i16x4 (fun _ => by from_tac)
+theorem from_i32x4 : Signed4 Version.rs_from_i32x4 := from_signed4 Version.rs_from_i32x4 (fun _ => by from_tac)
+theorem from_i64x4 : Signed4 Version.rs_from_i64x4 := from_signed4 Version.rs_from_i64x4 (fun _ => by from_tac)
+theorem from_isizex4 : Signed4 Version.rs_from_isizex4 := from_signed4 Version.rs_from_isizex4 (fun _ => by from_tac)
 
 end Semver.GenEquiv
